@@ -298,6 +298,28 @@ def check(run):
             run.check(okb, 'R5', 'bind-only-when-unbound', f.norm, f.loc(c),
                       'bind(ep, ec) registers the new endpoint although the socket may already hold a binding (no dominating m_bound_to == endpoint() test, no unbind of the old one): the old registry entry keeps pointing at this socket, close() releases only the new endpoint, and the old one stays taken - and dangling once the socket is destroyed',
                       'the registry is reached only when m_bound_to is unset')
+    run.clause('implicit binds use the socket\'s OWN address family: the wildcard endpoint bound by async_connect / send_to on an unbound socket is chosen by m_is_v4, not by the peer\'s family and not a default (IPv4) endpoint')
+    for fname, callee in ((T + '::async_connect', 'bind_socket'), (U + '::send_to_impl', 'bind')):
+        f = fx.fn1(fname)
+        run.touch(f)
+        ib = [c for c in f.calls() if (q.callee_name(c) or '').split('::')[-1] == callee and any('m_bound_to' in q.render(f, a_) for a_, p_ in q.guards_at(f, c))]
+        if not ib:
+            run.broke('%s: implicit bind (call of %s under an m_bound_to test) not found' % (fname, callee))
+            continue
+        for c in ib:
+            ep_arg = [a_ for a_ in c.get('args', []) if 'endpoint' in f.cty(a_)] if all('t' in a_ for a_ in c.get('args', []) if is_node(a_)) else c.get('args', [])
+            srcs = []
+            for a_ in ep_arg[:1] or c.get('args', [])[:2]:
+                a0 = q.strip_casts(a_)
+                srcs.append(a0)
+                if is_node(a0) and a0['k'] == 'ref' and a0.get('dk') == 'local':
+                    srcs += [w_ for w_ in f.all_nodes() if w_['k'] == 'call' and is_node(w_.get('obj')) and q.render(f, w_['obj']) == q.render(f, a0)]     # ep.address(...) writes
+                    srcs += [d_ for _s, d_ in q.local_defs(f, a0['did'])]
+            own = any('m_is_v4' in q.render(f, x_) for s_ in srcs if is_node(s_) for x_ in walk(s_)) or \
+                any('m_is_v4' in q.render(f, g_) for s_ in srcs if is_node(s_) for g_, p_ in q.guards_at(f, s_))
+            run.check(own, 'R5', 'implicit-bind-own-family', fname, f.loc(c),
+                      'the endpoint of the implicit bind does not depend on m_is_v4: a socket of one family is bound to a wildcard of the other (an IPv4 socket connects to an IPv6 target instead of failing with address_family_not_supported; an unbound IPv6 UDP socket cannot send at all)',
+                      'wildcard chosen by m_is_v4')
     run.clause('a moved socket keeps what the registry relies on (family, binding, forwarder): the move constructors transfer every field (shared with C12)')
     import p12 as _p12
     _p12.move_ctor_rules(run, ((T, 'tcp'), (U, 'udp')))
